@@ -6,6 +6,7 @@
 //!   files    = (L (L (B path-relative-to-the-run-dir) (B content)) ...)   the host directory is `<run dir>/host`
 //!   handlers = (L (L (B path) (B body) (N spref)) ...)                     path-bound Prepare extensions (status 200)
 //!   requests = (L (L (B method) (B target) (N origin_kind)) ...)
+//!            | (L (N 1) (B from) (B to))   the response-cache entry under the path `from` is copied to the key `to` -> (L (N found))
 //!     origin_kind: 0 no Origin header, 1 `Origin` of the same site, 2 `Origin` of another site,
 //!                  3 as 2 + `access-control-request-method`, 4 as 1 + `access-control-request-method`
 //! output = (L per-request ...), per request (L (N status) (B decoded body, error pages canonicalised) (L log ...))
@@ -85,43 +86,76 @@ fn run(x: &X) -> Option<X> {
         );
     };
     let built = pipe::build_host(&X::L(cfg), Some(&customize))?;
+    enum Op {
+        Skip,
+        Req(X),
+        Alias(Vec<u8>, Vec<u8>),
+    }
     let mut ops = Vec::new();
-    let mut skipped = Vec::new();
     for r in l[1].as_l()? {
         let r = r.as_l()?;
+        if r.len() == 3 && r[0].as_n() == Some(1) {
+            ops.push(Op::Alias(r[1].as_b()?.to_vec(), r[2].as_b()?.to_vec()));
+            continue;
+        }
         let (method, target, kind) = (r[0].as_b()?, r[1].as_b()?, r[2].as_n()?);
-        skipped.push(!target.starts_with(b"/"));
-        ops.push(X::L(vec![X::N(0), X::N(1), X::b(method), X::b(target), X::L(headers_of(kind)), X::b(b"")]));
+        if !target.starts_with(b"/") {
+            ops.push(Op::Skip);
+        } else {
+            ops.push(Op::Req(X::L(vec![X::N(0), X::N(1), X::b(method), X::b(target), X::L(headers_of(kind)), X::b(b"")])));
+        }
     }
-    let ops: Vec<X> = ops.into_iter().zip(&skipped).filter(|(_, s)| !**s).map(|(o, _)| o).collect();
-    let res = std::panic::catch_unwind(std::panic::AssertUnwindSafe(|| pipe::block_on(pipe::run_ops(&built, &ops))));
+    let res = std::panic::catch_unwind(std::panic::AssertUnwindSafe(|| {
+        pipe::block_on(async {
+            let mut out = Vec::new();
+            for op in &ops {
+                match op {
+                    Op::Skip => out.push(X::L(vec![X::N(96)])),
+                    Op::Req(op) => {
+                        let r = pipe::run_ops(&built, std::slice::from_ref(op)).await?.into_iter().next()?;
+                        let rl = r.as_l()?;
+                        if rl.len() == 6 {
+                            // (L status headers body decode_ok identity log)
+                            if rl[3].as_bool() != Some(true) {
+                                out.push(X::L(vec![X::N(95)]));
+                            } else {
+                                out.push(X::L(vec![rl[0].clone(), rl[2].clone(), rl[5].clone()]));
+                            }
+                        } else {
+                            out.push(r.clone());
+                        }
+                    }
+                    Op::Alias(from, to) => {
+                        // "any cache content": the entry stored under the path `from` (if any) is also put under the key `to`,
+                        // with the public `MokaCache::cache` field
+                        let host = built.hosts.get_host(&built.host_name)?;
+                        let found = match &host.response_cache {
+                            Some(cache) => {
+                                let k = |b: &[u8]| comprash::UriKey::Path(String::from_utf8_lossy(b).as_ref().into());
+                                match cache.cache.get(&k(from)) {
+                                    Some(v) => {
+                                        cache.cache.insert(k(to), v);
+                                        true
+                                    }
+                                    None => false,
+                                }
+                            }
+                            None => false,
+                        };
+                        out.push(X::L(vec![X::bool(found)]));
+                    }
+                }
+            }
+            Some(out)
+        })
+    }));
     if let Some(d) = &built.dir {
         let _ = std::fs::remove_dir_all(d);
     }
-    let res = match res {
-        Ok(r) => r,
+    let out = match res {
+        Ok(r) => r?,
         Err(_) => return Some(X::panic()),
     };
-    let mut res = res?.into_iter();
-    let mut out = Vec::new();
-    for s in skipped {
-        if s {
-            out.push(X::L(vec![X::N(96)]));
-            continue;
-        }
-        let r = res.next()?;
-        let rl = r.as_l()?;
-        if rl.len() == 6 {
-            // (L status headers body decode_ok identity log)
-            if rl[3].as_bool() != Some(true) {
-                out.push(X::L(vec![X::N(95)]));
-            } else {
-                out.push(X::L(vec![rl[0].clone(), rl[2].clone(), rl[5].clone()]));
-            }
-        } else {
-            out.push(r.clone());
-        }
-    }
     Some(X::L(out))
 }
 
